@@ -7,7 +7,7 @@ From FF Require Import Lib.Word Gen.Consts_device_acpi_aml Gen.Consts_aml_tree A
   Aml.Tree Aml.Parser Aml.ParserProofs Aml.TreeSpec Aml.TreeProofs Aml.TreeProofsOps Aml.TreeProofsFind Aml.TreeProofsAnc
   Aml.ParserTotalTree Aml.ParserTotalTree2 Aml.ParserTotalLex Aml.ParserTotalTable Aml.ParserTotalBase Aml.ParserTotalLeaf
   Aml.ParserTotalFrame Aml.ParserTotalLeaf2 Aml.ParserTotalFirst Aml.ParserTotalConn Aml.ParserTotalReloc Aml.ParserTotalDefer
-  Aml.ParserTotalMerge Aml.ParserTotalDeferS Aml.ParserTotalDeferB Aml.ParserTotalDeferW Aml.ParserTotalDeferH.
+  Aml.ParserTotalMerge Aml.ParserTotalNonNamed Aml.ParserTotalCalls Aml.ParserTotalDeferS Aml.ParserTotalDeferB Aml.ParserTotalDeferW Aml.ParserTotalDeferH Aml.ParserTotalDeferM.
 Import ListNotations.
 Local Open Scope N_scope.
 
@@ -22,9 +22,10 @@ Definition isflag (s : pstate) (x : N) : bool :=
   end.
 
 (** [dcnt s g x n]: the walk from [x] meets [n] pending deferred objects (it does not descend below them); one with a
-    field list (BankField) has a parent *)
+    field list (BankField) has a parent; none is a pOpIntNamePathOrMethodCall object *)
 Inductive dcnt (s : pstate) (g : ghost) : N -> N -> Prop :=
-| dc_flag x : glive g x -> isflag s x = true -> (hasfl s x -> has_parent g x) -> dcnt s g x 1
+| dc_flag x : glive g x -> isflag s x = true -> (hasfl s x -> has_parent g x) ->
+    (forall o, tget (p_tree s) x = Some o -> o_opcode o <> aml_pOpIntNamePathOrMethodCall) -> dcnt s g x 1
 | dc_node x n : glive g x -> isflag s x = false -> dcl s g (kids g x) n -> dcnt s g x n
 with dcl (s : pstate) (g : ghost) : list N -> N -> Prop :=
 | dcl_nil : dcl s g [] 0
@@ -106,6 +107,7 @@ Record wstep (s : pstate) (g : ghost) (s' : pstate) (g' : ghost) : Prop := mkWst
   ws_keep : keep (fun _ => True) s g s';
   ws_h : p_handle s' = p_handle s;
   ws_len : r_len (p_r s') = r_len (p_r s);
+  ws_typed : typed (p_tree s) -> typed (p_tree s');
   ws_nil : forall y, glive g y -> isflag s y = false -> kids g y = [] -> kids g' y = [];
   ws_kids : forall y, glive g y -> isflag s y = false -> ins (zero s' g') (kids g y) (kids g' y)
 }.
@@ -129,17 +131,18 @@ Qed.
 
 Lemma zero_step s g s' g' x : WI s g -> wstep s g s' g' -> zero s g x -> zero s' g' x.
 Proof.
-  intros H [A B C D E F] (Hl & Hk & Hf). split; [apply (ge_live _ _ A); exact Hl|]. split; [apply E; auto|].
+  intros H [A B C D T E F] (Hl & Hk & Hf). split; [apply (ge_live _ _ A); exact Hl|]. split; [apply E; auto|].
   rewrite (isflag_keep _ _ _ _ _ H B C Hl). exact Hf.
 Qed.
 
 Lemma wstep_trans s g s1 g1 s2 g2 : WI s g -> WI s1 g1 -> wstep s g s1 g1 -> wstep s1 g1 s2 g2 -> wstep s g s2 g2.
 Proof.
-  intros H H1 S1 S2. pose proof S1 as [A1 B1 C1 D1 E1 F1]. pose proof S2 as [A2 B2 C2 D2 E2 F2]. constructor.
+  intros H H1 S1 S2. pose proof S1 as [A1 B1 C1 D1 T1 E1 F1]. pose proof S2 as [A2 B2 C2 D2 T2 E2 F2]. constructor.
   - eapply gext_trans; eauto.
   - eapply keep_trans; eauto. apply (ge_live _ _ A1).
   - congruence.
   - congruence.
+  - auto.
   - intros y Hy Hf Hk. apply E2; [apply (ge_live _ _ A1); exact Hy| |apply E1; auto].
     rewrite (isflag_keep _ _ _ _ _ H B1 C1 Hy). exact Hf.
   - intros y Hy Hf. eapply ins_trans.
@@ -150,11 +153,14 @@ Qed.
 Lemma dcnt_step s g s' g' : WI s g -> wstep s g s' g' ->
   (forall x n, dcnt s g x n -> dcnt s' g' x n) /\ (forall l n, dcl s g l n -> dcl s' g' l n).
 Proof.
-  intros H [A B C D E F]. apply dcnt_dcl_ind.
-  - intros x Hx Hf Hn. apply dc_flag.
+  intros H [A B C D T E F]. apply dcnt_dcl_ind.
+  - intros x Hx Hf Hn Hnp. apply dc_flag.
     + apply (ge_live _ _ A). exact Hx.
     + rewrite (isflag_keep _ _ _ _ _ H B C Hx). exact Hf.
     + intros Hfl. eapply has_parent_ext; [exact A|]. apply Hn. eapply hasfl_keep; eauto.
+    + intros o' Ho'. destruct (FI_live_get _ _ _ H Hx) as (o & Ho & _).
+      destruct (B x o Hx Ho) as (o2 & Ho2 & (Eop & _) & _). assert (o2 = o') by congruence. subst o2.
+      rewrite Eop. apply (Hnp o Ho).
   - intros x n Hx Hf _ IH. apply dc_node.
     + apply (ge_live _ _ A). exact Hx.
     + rewrite (isflag_keep _ _ _ _ _ H B C Hx). exact Hf.
@@ -179,6 +185,20 @@ Lemma block_body_hsame pf obj oo : hsame (block_body pf obj oo).
 Proof.
   unfold block_body. hsame_unf.
   repeat first [ apply parseObjectArgs_hsame | apply popAll_go_hsame | progress hsame_tac ].
+Qed.
+
+Lemma block_body_NN pf obj oo s a s' : block_body pf obj oo s = Ok (a, s') -> NN s s'.
+Proof.
+  unfold block_body. intros H. apply bindM_ok in H. destruct H as (u & s1 & E1 & H). inversion E1; subst u s1. clear E1.
+  assert (Hn : nnp (mlet se <~ Parser.get p_streamEnd ;;
+                    setPkgEndM se ;;;
+                    setOffsetM (w32 (o_amlOffset oo + 1)) ;;;
+                    (if 0xff <? o_opcode oo then readByteM ;;; ret tt else ret tt) ;;;
+                    mlet res <~ parseObjectArgs pf obj ;;
+                    if negb (pres_eqb res ROk) then ret RFailed else
+                    mlet n <~ Parser.get (fun s => S (length (p_pkgEndStack s))) ;; popAll_go n ;;; ret ROk)).
+  { nnp_unf. repeat first [ apply parseObjectArgs_nnp | apply popAll_go_nnp | progress nnp_tac ]. }
+  destruct (Hn _ _ _ H eq_refl) as (_ & N1). exact N1.
 Qed.
 
 Section WalkAll.
@@ -213,7 +233,7 @@ Proof.
   assert (Ef : isflag s x = hasFlag fl aml_pOpFlagDeferParsing && (o_tableHandle oo =? p_handle s)).
   { unfold isflag. rewrite Hoo, Erow. reflexivity. }
   rewrite <- Ef. destruct (isflag s x) eqn:Efl.
-  - inversion Hd as [x' Hx Hf Hn|x' n' Hx Hf Hk]; subst; [|congruence].
+  - inversion Hd as [x' Hx Hf Hn Hnp|x' n' Hx Hf Hk]; subst; [|congruence].
     symmetry in Ef. apply andb_prop in Ef. destruct Ef as (Ef1 & Ef2).
     assert (HB : wp True (block_body pf x oo) s (fun res s' => exists g',
       WI s' g' /\ gext g g' /\ r_len (p_r s') = r_len (p_r s) /\
@@ -224,11 +244,16 @@ Proof.
       - exact Hn.
       - exact HTM.
       - unfold capW, Cblock in *. lia. }
-    eapply wp_weaken; [apply (wp_and_pc _ _ _ _ (fun _ s' => p_handle s' = p_handle s) HB)|auto|].
-    + intros a s' E. apply (block_body_hsame pf x oo s a s' E).
-    + intros res s' ((g' & W' & G & L & P & K & T & F & Fi) & Hh). exists g'. split; [exact W'|]. split.
+    eapply wp_weaken; [apply (wp_and_pc _ _ _ _ (fun _ s' => p_handle s' = p_handle s /\ NN s s') HB)|auto|].
+    + intros a s' E. split; [apply (block_body_hsame pf x oo s a s' E)|apply (block_body_NN pf x oo s a s' E)].
+    + intros res s' ((g' & W' & G & L & P & K & T & F & Fi) & Hh & HNN). exists g'. split; [exact W'|]. split.
       * constructor; auto.
         -- intros i o Hi Ho. destruct (K i o Hi Ho) as (o' & Ho' & E' & _). exists o'. split; [exact Ho'|]. split; [exact E'|]. intros F'. exfalso. apply F'. exact I.
+        -- intros Hty i o' Ho' Hlo' Hop'. destruct (HNN i o' Ho' Hop') as (o0 & Ho0 & Hop0).
+           assert (Hl0 : o_opcode o0 <> opFreed) by (rewrite Hop0; discriminate).
+           assert (Hi : glive g i) by (apply (R_live_glive _ _ (fi_R _ _ H)); exists o0; auto).
+           destruct (K i o0 Hi Ho0) as (o2 & Ho2 & _ & Hv). assert (o2 = o') by congruence. subst o2.
+           rewrite Hv; [apply (Hty i o0 Ho0 Hl0 Hop0)|]. intros <-. apply (Hnp o0 Ho0). exact Hop0.
         -- intros y Hy Hfy Hky. destruct (F y Hy) as (_ & Hex); [intros (_ & Hin); rewrite Hky in Hin; exact Hin|].
            rewrite Hex; [exact Hky|]. intros <-. congruence.
         -- intros y Hy Hfy. destruct (in_dec N.eq_dec x (kids g y)) as [Hin|Hnin].
@@ -238,7 +263,7 @@ Proof.
            ++ destruct (F y Hy) as (_ & Hex); [intros (_ & Hin); contradiction|].
               rewrite Hex; [apply ins_refl|]. intros <-. congruence.
       * split; [lia|exact T].
-  - inversion Hd as [x' Hx Hf Hn|x' n' Hx Hf Hk]; subst; [congruence|].
+  - inversion Hd as [x' Hx Hf Hn Hnp|x' n' Hx Hf Hk]; subst; [congruence|].
     rewrite (WI_first _ _ _ _ H Hoo Hlo).
     apply (HL pf x [] (kids g x) n s g); auto.
 Qed.
@@ -292,7 +317,8 @@ Theorem deferred_walk_never_panics : forall fuel parseFuel x n s g,
   lp s + n * (8 * r_len (p_r s) + 3) + 4 <= InvalidIndex ->
   match parseDeferredBlocks fuel parseFuel x s with
   | Ok (res, s') => exists g', R (p_tree s') g' /\ info_valid (p_tree s') /\ rok (p_r s') /\ Forall (glive g') (p_scopeStack s') /\
-      gext g g' /\ glive g' 0 /\ lp s' <= lp s + n * (8 * r_len (p_r s) + 3) /\ (res = ROk -> TM NoX s' g')
+      gext g g' /\ glive g' 0 /\ lp s' <= lp s + n * (8 * r_len (p_r s) + 3) /\ (res = ROk -> TM NoX s' g') /\
+      (typed (p_tree s) -> typed (p_tree s'))
   | Panic => False
   | OutOfFuel => True
   end.
@@ -302,7 +328,68 @@ Proof.
   pose proof (proj1 (DWL_all fuel) pf x n s g H I0 H0 HTM Hd Hcap) as W.
   unfold wp in W. destruct (parseDeferredBlocks fuel pf x s) as [[res s']| |]; auto.
   destruct W as (g' & [A B C D E] & S1 & L & T). exists g'. repeat (split; [assumption|]).
-  split; [apply (ws_g _ _ _ _ S1)|]. split; [apply (ge_live _ _ (ws_g _ _ _ _ S1)); exact H0|]. split; [exact L|exact T].
+  split; [apply (ws_g _ _ _ _ S1)|]. split; [apply (ge_live _ _ (ws_g _ _ _ _ S1)); exact H0|]. split; [exact L|]. split; [exact T|apply (ws_typed _ _ _ _ S1)].
+Qed.
+
+(** ---- the rest of ParseAML after the resolve loop: parseDeferredBlocks, resolveMethodCalls, connectNonNamedObjArgs ---- *)
+Definition parse_tail (f4 pf f5 f6 : nat) : M bool :=
+  mlet r4 <~ parseDeferredBlocks f4 pf 0 ;;
+  if negb (pres_eqb r4 ROk) then ret false else
+  mlet r5 <~ resolveMethodCalls f5 0 ;;
+  if negb (pres_eqb r5 ROk) then ret false else
+  mlet r6 <~ connectNonNamedObjArgs f6 0 ;;
+  if negb (pres_eqb r6 ROk) then ret false else
+  ret true.
+
+Lemma parseAML_body_tail fuel :
+  parseAML_body fuel =
+  (scopeEnter 0 ;;;
+   mlet r1 <~ parseObjectList fuel ;;
+   if pres_eqb r1 RFailed then ret false else
+   mlet r2 <~ connectNamedObjArgs fuel 0 ;;
+   if negb (pres_eqb r2 ROk) then ret false else
+   (fun s => Ok (tt, with_counters s 1 (p_mergedScopes s) (p_relocatedObjects s))) ;;;
+   mlet r3 <~ resolve_loop fuel fuel ;;
+   if negb (pres_eqb r3 ROk) then ret false else parse_tail fuel fuel fuel fuel).
+Proof. reflexivity. Qed.
+
+Lemma groot_gext g g' x : gext g g' -> glive g x -> groot g x -> groot g' x.
+Proof. intros G Hl Hr p Hin. apply (Hr p). apply (ge_old _ _ G p x Hin Hl). Qed.
+
+Theorem deferred_tail_never_panics : forall f4 pf f5 f6 n s g,
+  R (p_tree s) g -> info_valid (p_tree s) -> rok (p_r s) -> Forall (glive g) (p_scopeStack s) -> IV s ->
+  glive g 0 -> groot g 0 -> TM NoX s g -> typed (p_tree s) -> dcnt s g 0 n ->
+  lp s + n * (8 * r_len (p_r s) + 3) + 4 <= InvalidIndex ->
+  match parse_tail f4 pf f5 f6 s with
+  | Ok (_, s') => exists g', R (p_tree s') g' /\ info_valid (p_tree s') /\ pool_ok (p_tables s') (p_tree s')
+  | Panic => False
+  | OutOfFuel => True
+  end.
+Proof.
+  intros f4 pf f5 f6 n s g HR Hi Hrk Hsc I0 H0 Hroot HTM Hty Hd Hcap.
+  assert (H : WI s g) by (constructor; auto).
+  assert (W : wp True (parse_tail f4 pf f5 f6) s (fun _ s' => exists g',
+            R (p_tree s') g' /\ info_valid (p_tree s') /\ pool_ok (p_tables s') (p_tree s'))).
+  { unfold parse_tail.
+    apply (wp_bind_inv tbls _ _ _ _ _ I0); [apply (proj1 (hoare_deferred tbls f4 pf))|].
+    eapply wp_weaken; [apply (proj1 (DWL_all f4) pf 0 n s g H I0 H0 HTM Hd Hcap)|auto|].
+    intros r4 s1 (g1 & H1 & S1 & L1 & T1) I1.
+    assert (Hp1 : pool_ok (p_tables s1) (p_tree s1)) by (rewrite (inv_tbls _ _ I1); apply (inv_pool _ _ I1)).
+    destruct (pres_eqb r4 ROk) eqn:E4; cbn [negb].
+    2:{ apply wp_ret. exists g1. split; [apply (fi_R _ _ H1)|]. split; [apply (fi_info _ _ H1)|exact Hp1]. }
+    pose proof (ws_g _ _ _ _ S1) as G1.
+    assert (Hl1 : glive g1 0) by (apply (ge_live _ _ G1); exact H0).
+    assert (Hroot1 : groot g1 0) by (eapply groot_gext; eauto).
+    assert (TI1 : TI s1 g1) by (constructor; [apply (fi_R _ _ H1)|apply (fi_info _ _ H1)|exact Hp1]).
+    apply wp_bind. eapply wp_weaken; [apply (proj1 (calls_all f5) 0 s1 g1 None [] [] TI1 (ws_typed _ _ _ _ S1 Hty) Hl1 Hl1 (conj Hroot1 eq_refl))|auto|].
+    intros r5 s2 (g2 & m2 & TI2 & Hrel2 & _ & Hroots2 & _).
+    destruct (pres_eqb r5 ROk); cbn [negb].
+    2:{ apply wp_ret. exists g2. destruct TI2 as [A B C]. auto. }
+    assert (Hl2 : glive g2 0) by (apply (reloc_glive _ _ _ 0 Hrel2); exact Hl1).
+    apply wp_bind. eapply wp_weaken; [apply (proj1 (nonNamed_all f6) 0 s2 g2 None [] [] TI2 Hl2 (conj (Hroots2 0 Hroot1) eq_refl))|auto|].
+    intros r6 s3 (g3 & m3 & TI3 & _).
+    destruct (pres_eqb r6 ROk); cbn [negb]; apply wp_ret; exists g3; destruct TI3 as [A B C]; auto. }
+  unfold wp in W. destruct (parse_tail f4 pf f5 f6 s) as [[b s']| |]; auto.
 Qed.
 End WalkAll.
 
@@ -321,12 +408,126 @@ Proof.
   { apply dc_node; [exact F|vm_compute; reflexivity|].
     assert (Ek : kids dex_ghost 0 = [1]) by (vm_compute; reflexivity). rewrite Ek.
     change 1 with (1 + 0) at 2. apply dcl_cons; [|apply dcl_nil].
-    apply dc_flag; [exact G|vm_compute; reflexivity|].
+    apply dc_flag; [exact G|vm_compute; reflexivity| |intros o Ho; rewrite Hoo in Ho; inversion Ho; subst o; vm_compute in Hoo; inversion Hoo; subst oo; vm_compute; discriminate].
     intros (co & op' & fl' & af' & Hco & Hr' & k & Hk & Hf). revert Hf.
     assert (co = oo) by congruence. subst co. rewrite Hrow in Hr'. inversion Hr'; subst op' fl' af'. clear Hr' Hco.
     vm_compute in Hoo. inversion Hoo; subst oo. vm_compute in Hrow. inversion Hrow; subst af.
     assert (Hc : k = 0 \/ k = 1 \/ k = 2 \/ k = 3 \/ k = 4 \/ k = 5 \/ k = 6 \/ k = 7) by lia.
     destruct Hc as [->|[->|[->|[->|[->|[->|[->| ->]]]]]]]; vm_compute; discriminate. }
+  split; [vm_compute; discriminate|].
+  vm_compute. split; reflexivity.
+Qed.
+
+(** the hypotheses of the tail theorem are satisfiable by the same state; all three passes return ok *)
+Lemma tail_hyps_example :
+  exists (s : pstate) (g : ghost) (n : N),
+    R (p_tree s) g /\ info_valid (p_tree s) /\ rok (p_r s) /\ Forall (glive g) (p_scopeStack s) /\ Inv (p_tables s) s /\
+    glive g 0 /\ groot g 0 /\ TM NoX s g /\ typed (p_tree s) /\ dcnt s g 0 n /\
+    lp s + n * (8 * r_len (p_r s) + 3) + 4 <= InvalidIndex /\
+    match parse_tail 6 400 10 10 s with Ok (b, s') => b = true /\ lp s' = 4 | _ => False end.
+Proof.
+  destruct dex_hyps as (oo & op & fl & af & A & B & C & D & E & F & G & Hoo & Hrow & Hdf & Hh & Hfl & HTM & _ & _).
+  exists dex_state, dex_ghost, 1.
+  split; [exact A|]. split; [exact B|]. split; [exact C|]. split; [exact D|]. split; [exact E|]. split; [exact F|].
+  split; [apply groot_chk; vm_compute; reflexivity|]. split; [exact HTM|].
+  split.
+  { unfold typed. change (p_tree dex_state) with dex_tree.
+    apply (pool_cases dex_tree (fun i o => o_opcode o <> opFreed -> o_opcode o = aml_pOpIntNamePathOrMethodCall ->
+                                           exists tbl sl, o_value o = Some (VBytes tbl sl))). intros k o Hk _ Hop.
+    do 2 (destruct k as [|k]; [vm_compute in Hk; inversion Hk; subst o; vm_compute in Hop; discriminate|]).
+    vm_compute in Hk. destruct k; discriminate. }
+  split.
+  { apply dc_node; [exact F|vm_compute; reflexivity|].
+    assert (Ek : kids dex_ghost 0 = [1]) by (vm_compute; reflexivity). rewrite Ek.
+    change 1 with (1 + 0) at 2. apply dcl_cons; [|apply dcl_nil].
+    apply dc_flag; [exact G|vm_compute; reflexivity| |intros o Ho; rewrite Hoo in Ho; inversion Ho; subst o; vm_compute in Hoo; inversion Hoo; subst oo; vm_compute; discriminate].
+    intros (co & op' & fl' & af' & Hco & Hr' & k & Hk & Hf). revert Hf.
+    assert (co = oo) by congruence. subst co. rewrite Hrow in Hr'. inversion Hr'; subst op' fl' af'. clear Hr' Hco.
+    vm_compute in Hoo. inversion Hoo; subst oo. vm_compute in Hrow. inversion Hrow; subst af.
+    assert (Hc : k = 0 \/ k = 1 \/ k = 2 \/ k = 3 \/ k = 4 \/ k = 5 \/ k = 6 \/ k = 7) by lia.
+    destruct Hc as [->|[->|[->|[->|[->|[->|[->| ->]]]]]]]; vm_compute; discriminate. }
+  split; [vm_compute; discriminate|].
+  vm_compute. split; reflexivity.
+Qed.
+
+(** ---- the same with a pending BankField: BankField (REG0, BNK0, Zero, 1) { FLD0, 8 } - the block inserts the NamedField FLD0
+    behind the BankField into the root's list, and the walk steps over it ---- *)
+Definition bex_ops : list op :=
+  [ OpNewNamed opScopeBlock 0 (0x5c, 0, 0, 0); OpNew aml_pOpBankField 1; OpAppend 0 1 ].
+Definition bex_image : list N :=
+  table_image [0x5b; 0x87; 0x10; 0x52; 0x45; 0x47; 0x30; 0x42; 0x4e; 0x4b; 0x30; 0x00; 0x01; 0x46; 0x4c; 0x44; 0x30; 0x08].
+Definition bex_tree : T :=
+  match run (@NewObjectTree value) bex_ops with
+  | Ok t => tset t 1 (set_amlOffset aml_sizeofSDTHeader)
+  | _ => NewObjectTree
+  end.
+Definition bex_ghost : ghost := arun ghost0 bex_ops.
+Definition bex_state : pstate := with_scopeStack (init_state bex_tree [] 1 bex_image) [0].
+
+Lemma bex_legal : legal_seq ghost0 bex_ops.
+Proof.
+  unfold bex_ops. cbn [legal_seq].
+  repeat match goal with |- _ /\ _ => split end; cbn [legal]; try exact I;
+  try (split; [vm_compute; discriminate | split; [first [left; vm_compute; discriminate | right; vm_compute; reflexivity] | intros _; vm_compute; reflexivity]]).
+  split; [split; [vm_compute; reflexivity | vm_compute; intuition discriminate]|].
+  split; [split; [vm_compute; reflexivity | vm_compute; intuition discriminate]|].
+  split; [apply groot_chk; vm_compute; reflexivity|apply (not_desc_chk _ _ _ [1]); vm_compute; reflexivity].
+Qed.
+
+Lemma bex_R : R bex_tree bex_ghost.
+Proof.
+  destruct (run_R bex_ops (@NewObjectTree value) ghost0 R_empty bex_legal) as (t' & Hrun & HR').
+  unfold bex_tree, bex_ghost. rewrite Hrun. apply R_tset_lk; [exact HR'|].
+  intros o _. unfold lk_eq, set_amlOffset. cbn. tauto.
+Qed.
+
+Lemma tail_bankfield_example :
+  exists (s : pstate) (g : ghost) (n : N),
+    R (p_tree s) g /\ info_valid (p_tree s) /\ rok (p_r s) /\ Forall (glive g) (p_scopeStack s) /\ Inv (p_tables s) s /\
+    glive g 0 /\ groot g 0 /\ TM NoX s g /\ typed (p_tree s) /\ dcnt s g 0 n /\
+    (exists x, hasfl s x /\ isflag s x = true /\ In x (kids g 0)) /\
+    lp s + n * (8 * r_len (p_r s) + 3) + 4 <= InvalidIndex /\
+    match parse_tail 6 400 10 10 s with Ok (b, s') => b = true /\ lp s' = 7 | _ => False end.
+Proof.
+  assert (Hi : info_valid bex_tree).
+  { unfold info_valid. apply (pool_cases bex_tree (fun i o => o_opcode o <> opFreed -> opInfo (o_infoIndex o) <> None)). intros n o Hn.
+    do 2 (destruct n as [|n]; [vm_compute in Hn; inversion Hn; subst o; intros _; vm_compute; discriminate|]).
+    vm_compute in Hn. destruct n; discriminate. }
+  assert (H0 : glive bex_ghost 0) by (split; [vm_compute; reflexivity|vm_compute; intuition discriminate]).
+  assert (H1 : glive bex_ghost 1) by (split; [vm_compute; reflexivity|vm_compute; intuition discriminate]).
+  assert (Him : image_small bex_image) by (split; [repeat constructor; vm_compute; reflexivity|vm_compute; discriminate]).
+  assert (Hcap : N.of_nat (length (t_pool bex_tree)) + 4 * N.of_nat (length bex_image) + 4 <= InvalidIndex) by (vm_compute; discriminate).
+  destruct (init_FI bex_tree bex_ghost [] 1 bex_image bex_R Hi H0 Him Hcap) as ([A B C D E] & _).
+  fold bex_state in A, B, C, D, E.
+  assert (Hfl1 : hasfl bex_state 1).
+  { eexists _, _, _, _. split; [vm_compute; reflexivity|]. split; [vm_compute; reflexivity|]. exists 5. split; [reflexivity|vm_compute; reflexivity]. }
+  exists bex_state, bex_ghost, 1.
+  split; [exact A|]. split; [exact B|]. split; [exact C|]. split; [exact E|].
+  split.
+  { destruct C as (W & Sm & O). constructor; [reflexivity|exact W| |reflexivity|].
+    - unfold no_wrap. unfold small_table in Sm. unfold two32 in *. lia.
+    - unfold pool_ok. rewrite Forall_forall. intros o Hin. destruct (In_nth_error _ _ Hin) as (n & Hn).
+      do 2 (destruct n as [|n]; [vm_compute in Hn; inversion Hn; subst o; exact I|]). vm_compute in Hn. destruct n; discriminate. }
+  split; [exact H0|]. split; [apply groot_chk; vm_compute; reflexivity|].
+  split.
+  { unfold TM. change (p_tree bex_state) with bex_tree.
+    apply (pool_cases bex_tree (fun m mo => o_opcode mo = aml_pOpMethod -> ~ NoX m -> mtyped bex_state bex_ghost m)). intros n o Hn Hop.
+    do 2 (destruct n as [|n]; [vm_compute in Hn; inversion Hn; subst o; vm_compute in Hop; discriminate|]).
+    vm_compute in Hn. destruct n; discriminate. }
+  split.
+  { unfold typed. change (p_tree bex_state) with bex_tree.
+    apply (pool_cases bex_tree (fun i o => o_opcode o <> opFreed -> o_opcode o = aml_pOpIntNamePathOrMethodCall ->
+                                           exists tbl sl, o_value o = Some (VBytes tbl sl))). intros k o Hk _ Hop.
+    do 2 (destruct k as [|k]; [vm_compute in Hk; inversion Hk; subst o; vm_compute in Hop; discriminate|]).
+    vm_compute in Hk. destruct k; discriminate. }
+  assert (Ek : kids bex_ghost 0 = [1]) by (vm_compute; reflexivity).
+  split.
+  { apply dc_node; [exact H0|vm_compute; reflexivity|]. rewrite Ek.
+    change 1 with (1 + 0) at 2. apply dcl_cons; [|apply dcl_nil].
+    apply dc_flag; [exact H1|vm_compute; reflexivity| |].
+    - intros _. exists 0. rewrite Ek. left. reflexivity.
+    - intros o Ho. vm_compute in Ho. inversion Ho; subst o. vm_compute. discriminate. }
+  split; [exists 1; split; [exact Hfl1|split; [vm_compute; reflexivity|rewrite Ek; left; reflexivity]]|].
   split; [vm_compute; discriminate|].
   vm_compute. split; reflexivity.
 Qed.
